@@ -247,12 +247,13 @@ _SIMLAB = re.compile(r'^\\\* <(.*) line \d+, col \d+ to line \d+, col \d+ of mod
 def parse_sim_file(path):
     """One TLC -simulate file=... behaviour -> list of label lists (Init skipped)."""
     labs = []
+    first = True
     with open(path) as f:
         for line in f:
             m = _SIMLAB.match(line)
             if m:
-                lab = m.group(1)
-                if lab.startswith("Init"):
+                if first:
+                    first = False  # the initial predicate
                     continue
-                labs.append(parse_label(lab))
+                labs.append(parse_label(m.group(1)))
     return labs
